@@ -55,7 +55,10 @@ def operand_positions(rng, depth):
     if r < 0.72:
         return mrow(mi(rng.choice(["sin", "cos", "log", "f", "ln"])), mo("⁡"), mrow(mo("("), sub(), mo(")")))
     if r < 0.78:
-        return mrow(el("munderover", mo(rng.choice(["∑", "∏", "∫"])), mrow(mi("k"), mo("="), P()), sub()), sub())
+        # a large operator with both limits; the lower limit is not always `k = value` (rules that look at its shape must still speak it)
+        low = rng.choice([lambda: mrow(mi("k"), mo("="), P()), lambda: mrow(mi("k"), mo("="), P()), lambda: P(), lambda: mrow(mi("k"), mo(rng.choice(["≥", ">", "∈", "<", "≠"])), P()),
+                          lambda: mrow(mi("a"), mo(rng.choice(["+", "-"])), P()), lambda: mrow(P(), mi("k")), lambda: mrow(P(), mo("="), mi("k")), lambda: mrow(mo("-"), P()), sub])()
+        return mrow(el(rng.choice(["munderover", "munderover", "msubsup"]), mo(rng.choice(["∑", "∏", "∫", "⋃"])), low, sub()), sub())
     if r < 0.80:
         return mrow(el("munder", mo("lim"), mrow(mi("x"), mo("→"), P())), sub())
     if r < 0.82:
@@ -119,6 +122,10 @@ FIXED = [
     lambda: mrow(mo("("), el("mtable", el("mtr", el("mtd", mn("@")), el("mtd", mn("@"))), el("mtr", el("mtd", mn("@")), el("mtd", mn("@")))), mo(")")),
     lambda: el("msubsup", mi("x"), mn("@"), mn("@")),
     lambda: mrow(el("munderover", mo("∑"), mrow(mi("k"), mo("="), mn("@")), mn("@")), el("msup", mi("k"), mn("@"))),
+    lambda: mrow(el("msubsup", mo("∫"), mrow(mi("a"), mo("+"), mn("@")), mn("@")), mi("f"), mo("⁡"), mrow(mo("("), mn("@"), mo(")")), mi("d"), mi("x")),
+    lambda: mrow(el("munderover", mo("∏"), mrow(mn("@"), mi("k")), mrow(mi("n"), mo("+"), mn("@"))), mi("k")),
+    lambda: mrow(el("munderover", mo("∑"), mrow(mi("k"), mo("≥"), mn("@")), mn("@")), el("msub", mi("a"), mi("k"))),
+    lambda: mrow(el("munder", mo("∑"), mrow(mi("k"), mo("<"), mn("@"))), mi("k"), mo("+"), el("msub", mo("∫"), mrow(mn("@"), mi("b"))), mi("x")),
     lambda: el("mroot", mrow(mi("x"), mo("+"), mn("@")), mn("@")),
     lambda: mrow(mi("sin"), mo("⁡"), mrow(mo("("), mn("@"), mi("x"), mo(")"))),
     lambda: el("mfrac", el("mfrac", mn("@"), mn("@")), el("msup", mn("@"), mn("@"))),
